@@ -256,10 +256,15 @@ class TcpConnection():
                 self.sock.send(b"")
                 return True
 
+            except BlockingIOError:
+                #: Connection attempt still in progress.
+                continue
+
             except OSError as e:
-                if e.args[0] == 10057:
-                    self.connection_attempts -= self.connection_attempts
-                    return False
+                #: 10057 (WSAENOTCONN) on Windows; ECONNREFUSED, EPIPE, 
+                #: ENOTCONN and the like elsewhere: there is no connection.
+                self.connection_attempts -= self.connection_attempts
+                return False
 
 
 
